@@ -244,6 +244,20 @@ func (g *Gen) Target() *GConf {
 	if g.Kind == "asa" && !g.Small {
 		for i := g.Rng.Intn(4); i > 0; i-- {
 			gr := &GGroup{Name: fmt.Sprintf("g%d", len(c.Groups))}
+			if len(c.Groups) > 0 && g.Rng.Intn(3) == 0 {
+				// Near copy of an earlier group: the shape Netspoc
+				// produces when one group is split in two.
+				o := c.Groups[g.Rng.Intn(len(c.Groups))]
+				gr.Members = append(gr.Members, o.Members...)
+				if len(gr.Members) > 1 && g.Rng.Intn(2) == 0 {
+					i := g.Rng.Intn(len(gr.Members))
+					gr.Members = append(gr.Members[:i:i], gr.Members[i+1:]...)
+				} else {
+					gr.Members = append(gr.Members, "host "+g.host())
+				}
+				c.Groups = append(c.Groups, gr)
+				continue
+			}
 			for j := 1 + g.Rng.Intn(5); j > 0; j-- {
 				if g.Rng.Intn(3) == 0 {
 					a, _ := g.netAddr()
@@ -363,7 +377,7 @@ func (g *Gen) Device(t *GConf, nedits int, unmanaged bool) (*GConf, []string) {
 			}
 			continue
 		}
-		switch g.Rng.Intn(16) {
+		switch g.Rng.Intn(17) {
 		case 0: // generated names on device
 			for _, a := range d.ACLs {
 				old := a.Name
@@ -472,12 +486,20 @@ func (g *Gen) Device(t *GConf, nedits int, unmanaged bool) (*GConf, []string) {
 			}
 		case 11: // two target groups are one group on device
 			if len(d.Groups) > 1 {
-				a, b := d.Groups[0], d.Groups[1]
+				i := g.Rng.Intn(len(d.Groups))
+				j := g.Rng.Intn(len(d.Groups) - 1)
+				if j >= i {
+					j++
+				}
+				a, b := d.Groups[i], d.Groups[j]
+				if g.Rng.Intn(2) == 0 {
+					a.Members = append([]string{}, b.Members...)
+				}
 				for _, acl := range d.ACLs {
 					renameInLines(acl, b.Name, a.Name)
 					acl.Lines = dedupLines(acl.Lines, false)
 				}
-				d.Groups = append(d.Groups[:1], d.Groups[2:]...)
+				d.Groups = append(d.Groups[:j], d.Groups[j+1:]...)
 				ops = append(ops, "groups-merged")
 			}
 		case 12: // left-over generated objects
@@ -537,6 +559,22 @@ func (g *Gen) Device(t *GConf, nedits int, unmanaged bool) (*GConf, []string) {
 					d.ACLs = append(d.ACLs, &GACL{n, []string{g.ACE(d), g.denyAll()}})
 					d.Binds = append(d.Binds, [3]string{n, "out", intf})
 					ops = append(ops, "binding-extra")
+				}
+			}
+		case 16: // a line moves down behind lines that are new in the target
+			if len(d.ACLs) > 0 {
+				a := d.ACLs[g.Rng.Intn(len(d.ACLs))]
+				if len(a.Lines) > 3 {
+					i := 3 + g.Rng.Intn(len(a.Lines)-3) // moved line
+					j := g.Rng.Intn(i - 2)              // its place on device
+					m := a.Lines[i]
+					var nl []string
+					nl = append(nl, a.Lines[:j]...)
+					nl = append(nl, m)
+					nl = append(nl, a.Lines[j:i-2]...)
+					nl = append(nl, a.Lines[i+1:]...)
+					a.Lines = nl
+					ops = append(ops, "acl-line-moved-behind-new")
 				}
 			}
 		case 15: // two interfaces share one ACL on device
